@@ -79,7 +79,6 @@ def scorer_cases(draw, tier):
     ms = K.scorer_min_size(spec, p)
     nmin = {2: ms, 3: 2 * ms, 4: max(2 * ms, ms + 2)}[k]
     n = draw(st.integers(nmin, 40))
-    X, _ = draw(D.structured_matrix(n, p, exact=False, min_noise_scale=1e-2))
     from checks.c06 import cut3, cut4
     from checks.c01 import intervals
 
@@ -89,9 +88,11 @@ def scorer_cases(draw, tier):
         cuts = [draw(cut3(n, ms)) for _ in range(draw(st.integers(1, 6)))]
     else:
         cuts = [draw(cut4(n, ms)) for _ in range(draw(st.integers(1, 4)))]
-    return {"scorer": name, "X": X, "cuts": cuts, "t": draw(transformation(p, kinds)),
+    case = {"scorer": name, "cuts": cuts, "t": draw(transformation(p, kinds)),
             # the transformed data may be a *view* of the same buffer, and the same scorer object may be refitted on it
             "same_object_view": draw(st.sampled_from([False, False, True]))}
+    case["X"], _ = draw(D.structured_matrix(n, p, exact=False, min_noise_scale=1e-2))  # bulk data last (strategies/data.py)
+    return case
 
 
 def min_slice_variance(X, cuts, multivariate):
@@ -222,9 +223,11 @@ def detector_cases(draw, tier, det):
     nmax = 36 if det != "CircularBinarySegmentation" else 18
     n = draw(st.integers(n_min, max(n_min, nmax)))
     bw = params.get("bandwidth", params.get("min_segment_length", 1))
-    X, _ = draw(D.structured_matrix(n, p, exact=False, min_noise_scale=1e-2, boundary_positions=(bw, n - bw)))
-    return {"detector": det, "params": params, "X": X, "t": draw(transformation(p, {rel})),
+    case = {"detector": det, "params": params, "t": draw(transformation(p, {rel})),
             "one_detector": draw(st.sampled_from([False, True]))}
+    # bulk data last (strategies/data.py)
+    case["X"], _ = draw(D.structured_matrix(n, p, exact=False, min_noise_scale=1e-2, boundary_positions=(bw, n - bw)))
+    return case
 
 
 def pelt_objective(params, X, cpts, penalty):
